@@ -88,7 +88,7 @@ impl Model {
 
     pub fn next_after_purged(&self) -> u64 {
         match self.st.purged {
-            Some(p) => p.1.wrapping_add(1),
+            Some(p) => p.1.saturating_add(1),
             None => 0,
         }
     }
